@@ -20,24 +20,24 @@ CODES = {"acc": 0, "user": 1, "prov": 2, "nack": 3}
 
 
 def ctok(i: int) -> bytes:
-    return b"CLIENT-TOKEN-%d" % i
+    # tokens are opaque octet strings: they may begin and end with NUL octets (an NTLM message ends with MsvAvEOL = 00 00 00 00)
+    return b"\x00CLIENT-TOKEN-%d\x00" % i if i % 2 else b"CLIENT-TOKEN-%d" % i
 
 
 def stok(i: int) -> bytes:
-    return b"SERVER-TOKEN-%d!" % i
+    return b"SERVER-TOKEN-%d!\x00\x00\x00\x00" % i if i % 2 else b" SERVER-TOKEN-%d!" % i
+
+
+_TOK_IDS = {**{ctok(i): i for i in range(1, 40)}, **{stok(i): i for i in range(1, 40)}}
 
 
 def tok_id(b: t.Optional[bytes]) -> int:
+    """Identity of a token by its exact octets (99 = not one of the scripted tokens, e.g. truncated or padded on the way)."""
     if b is None:
         return -1
-    if b == b"":
+    if bytes(b) == b"":
         return 0
-    s = bytes(b)
-    if s.startswith(b"CLIENT-TOKEN-"):
-        return int(s[13:])
-    if s.startswith(b"SERVER-TOKEN-"):
-        return int(s[13:-1])
-    return 99
+    return _TOK_IDS.get(bytes(b), 99)
 
 
 class ScriptedServer:
@@ -101,6 +101,16 @@ class ScriptedServer:
             return refdc.finish_pdu(refdc.PT_BIND_NAK, fl, call, refdc.bind_nak_body(2))
         if k == "fault":
             return refdc.finish_pdu(refdc.PT_FAULT, fl, call, refdc.fault_body(5))
+        if k == "wrongack":
+            # a well-formed accepting ack, but of the other PDU type (bind_ack <-> alter_context_resp)
+            res = [(0, 0, refdc.NDR64), (3, 2, (uuid.UUID(int=0), 0, 0))][: max(nctx, 1)]
+            rb = refdc.bind_ack_body(res, "49664" if pt != refdc.PT_BIND else "")
+            tr = b""
+            if self.auth_seen is not None:
+                rb += b"\x00" * (-len(rb) % 4)
+                a = self.auth_seen
+                tr = refdc.sec_trailer(a["type"], a["level"], 0, a["ctx"], stok(1))
+            return refdc.finish_pdu(refdc.PT_ALTER_RESP if pt == refdc.PT_BIND else refdc.PT_BIND_ACK, fl | refdc.PFC_SIGN, call, rb, tr)
         if k == "ack":
             res = [(CODES[x], 0 if x == "acc" else 2, refdc.NDR64 if x == "acc" else (uuid.UUID(int=0), 0, 0)) for x in r["res"][: max(nctx, 1)]]
             # secondary address: every length residue mod 4 (a 5-, 4-, 3-, 2-digit port; none in an alter_context_resp)
